@@ -64,7 +64,10 @@ type Defect struct {
 	ConKind  string
 	Depth    int
 	Rejected bool // ggql may reject the whole document for this kind
+	Borrowed bool // unknown-field whose name is defined by some other type
 }
+
+func pick0(t *rapid.T, n int, label string) int { return rapid.IntRange(0, n-1).Draw(t, label) }
 
 func insertAt(t *rapid.T, set *[]*hx.Sel, s *hx.Sel) {
 	i := rapid.IntRange(0, len(*set)).Draw(t, "insertAt")
@@ -140,6 +143,29 @@ func inject(t *rapid.T, c *Case, kind string) (df Defect, ok bool) {
 		sel := &hx.Sel{Kind: "field", Alias: "dfct", Name: df.Name}
 		if rapid.Bool().Draw(t, "badSub") {
 			sel.Sels = []*hx.Sel{{Kind: "field", Name: "__typename"}}
+		}
+		// or: a name that some other type does define (for an abstract container: a field of one
+		// implementer that another implementer lacks)
+		if rapid.Bool().Draw(t, "borrowName") {
+			var cands []*hx.Field
+			for _, td := range s.Types {
+				if td.Kind != hx.KObject || td.Name == sr.con {
+					continue
+				}
+				for _, f := range td.Fields {
+					if ct := s.Type(sr.con); ct != nil && ct.Field(f.Name) == nil && len(f.Args) == 0 {
+						cands = append(cands, f)
+					}
+				}
+			}
+			if len(cands) > 0 {
+				bf := cands[pick0(t, len(cands), "borrowed")]
+				df.Name, sel.Name, sel.Sels = bf.Name, bf.Name, nil
+				if s.IsComposite(bf.Type.BaseName()) {
+					sel.Sels = []*hx.Sel{{Kind: "field", Name: "__typename"}}
+				}
+				df.Borrowed = true
+			}
 		}
 		insertAt(t, sr.sels, sel)
 		df.Key, df.Con, df.Depth = "dfct", sr.con, sr.depth
@@ -352,15 +378,33 @@ func checkC10(cc *c10Case) (ds []hx.Discrepancy, exp *hx.Expect, res map[string]
 	// Was the defective selection ever evaluated on an object? (ggql checks fields and arguments
 	// lazily while resolving: open finding KF-C10-lazy-validation.)
 	reached := true
+	undefinedOn := map[int]bool{} // nodes on which the defective field is evaluated although their type lacks it
+	definedSomewhere := false
 	if df.Kind == "unknown-field" || df.Kind == "undeclared-arg" || df.Kind == "omitted-required-arg" {
 		xd := &hx.Exec{S: c.Schema, G: c.Graph, D: c.Doc, Echo: c.Echo}
 		expd := xd.Run(c.Op, c.VarMap())
 		reached = false
+		dfctID := -1
 		c.Doc.Walk(func(sel *hx.Sel, depth int) {
-			if sel.Kind == "field" && sel.Alias == "dfct" && expd.Seen[sel.ID] > 0 {
-				reached = true
+			if sel.Kind == "field" && sel.Alias == "dfct" {
+				dfctID = sel.ID
+				if expd.Seen[sel.ID] > 0 {
+					reached = true
+				}
 			}
 		})
+		if df.Kind == "unknown-field" {
+			// a borrowed name may be defined for some of the objects the selection is evaluated on
+			for _, u := range expd.Undefined {
+				if u.Sel == dfctID {
+					undefinedOn[u.Node] = true
+				}
+			}
+			definedSomewhere = reached && len(undefinedOn) < expd.Seen[dfctID]
+			if reached && len(undefinedOn) == 0 {
+				return // evaluated only on objects that do define the field: a valid request after all
+			}
+		}
 	}
 	// 1. an error exists, and it names the offender where the statement says so
 	errs, _ := res["errors"].([]interface{})
@@ -387,7 +431,7 @@ func checkC10(cc *c10Case) (ds []hx.Discrepancy, exp *hx.Expect, res map[string]
 	for _, call := range w.Calls() {
 		switch df.Kind {
 		case "unknown-field":
-			if call.Key == "dfct" {
+			if call.Key == "dfct" && (!definedSomewhere || undefinedOn[call.Node]) {
 				add("resolver-invoked", "", "resolver invoked for the undefined field: %+v%s", call, ctx())
 			}
 		case "undeclared-arg":
